@@ -1,7 +1,11 @@
-// C08 harness: runs Poly1Dom<Modular<int32_t>,Dense> operations of /repo's current headers on cases from stdin.
-// line:   <variant> <p> <kthr> <sthr> <args...>     polynomial arg: c0,c1,..,cn or '-' (empty); scalar: integer
-// output: result tokens in the same syntax.  kthr/sthr are informational: the thresholds are compile-time
-// (KARA_THRESHOLD / SQR_THRESHOLD, possibly overridden with -D by the check); they are printed in the "#thr" line.
+// C08 harness: runs Poly1Dom<Field,Dense> (and Interpolation<Field>, Poly1CRT<Field>) operations of /repo's
+// current headers on cases from stdin, over several coefficient fields.
+// line:   <variant> <field> <p> <kthr> <sthr> <args...>   polynomial arg: c0,c1,..,cn or '-' (empty); scalar: integer
+//         field in { mi32 = Modular<int32_t>, mi64 = Modular<int64_t>, md = Modular<double>, mI = Modular<Integer>,
+//                    mb32 = ModularBalanced<int32_t>, gfq = GFqDom<int32_t>(p,1) (Zech logarithms) }
+// output: result tokens in the same syntax (coefficients printed as canonical residues 0..p-1).
+// kthr/sthr are informational: the thresholds are compile-time (KARA_THRESHOLD / SQR_THRESHOLD, possibly overridden
+// with -D by the check); they are printed in the "#thr" line.
 #include <iostream>
 #include <sstream>
 #include <string>
@@ -9,127 +13,232 @@
 #include <map>
 #include <cstdlib>
 #include "modular.h"
+#include "modular-balanced.h"
+#include "gfq.h"
 #include "givpoly1.h"
+#include "givinterp.h"
+#include "givpoly1crt.h"
+#include "givpoly1padic.h"
 
 using namespace Givaro;
-typedef Modular<int32_t> Field;
-typedef Poly1Dom<Field, Dense> PolDom;
-typedef PolDom::Element Poly;
-typedef Field::Element Elt;
 
-static Poly parse_poly(const Field& F, const std::string& s) {
-    Poly P;
-    if (s == "-") return P;
-    std::istringstream is(s); std::string t;
-    while (std::getline(is, t, ',')) { Elt e; F.init(e, (int64_t)atoll(t.c_str())); P.push_back(e); }
-    return P;
-}
-static std::string sp(const Poly& P) {
-    if (P.empty()) return "-";
-    std::ostringstream o;
-    for (size_t i = 0; i < P.size(); ++i) { if (i) o << ","; o << (long)P[i]; }
-    return o.str();
-}
-static std::string run(const PolDom& D, const Field& F, const std::string& v, const std::vector<std::string>& a) {
-    std::ostringstream o;
-    // destinations start from a non-empty junk value so that every resize branch is exercised
-    Poly R, R2, R3; R.assign(3, F.one); R2.assign(5, F.one); R3.assign(2, F.one);
-    auto P = [&](size_t i) { return parse_poly(F, a.at(i)); };
-    auto S = [&](size_t i) { Elt e; F.init(e, (int64_t)atoll(a.at(i).c_str())); return e; };
-    Elt e, m; F.init(e); F.init(m);
-    // ---- misc
-    if (v == "setdegree") { Poly A = P(0); o << sp(D.setdegree(A)); }
-    else if (v == "setDegree") { Poly A = P(0); D.setDegree(A); o << sp(A); }
-    else if (v == "degree.d") { Poly A = P(0); Degree d; D.degree(d, A); o << d.value(); }
-    else if (v == "degree.v") { Poly A = P(0); o << D.degree(A).value(); }
-    else if (v == "leadcoef") { Poly A = P(0); o << (long)D.leadcoef(e, A); }
-    else if (v == "isZero") { Poly A = P(0); o << (D.isZero(A) ? 1 : 0); }
-    else if (v == "areEqual") { Poly A = P(0), B = P(1); o << (D.areEqual(A, B) ? 1 : 0); }
-    else if (v == "areNEqual") { Poly A = P(0), B = P(1); o << (D.areNEqual(A, B) ? 0 : 1); }
-    else if (v == "assign") { Poly A = P(0); o << sp(D.assign(R, A)); }
-    else if (v == "monomial") { o << sp(D.assign(R, Degree(atol(a.at(0).c_str())), S(1))); }
-    else if (v == "monomial.init") { o << sp(D.init(R, Degree(atol(a.at(0).c_str())), (int64_t)atoll(a.at(1).c_str()))); }
-    else if (v == "eval") { Poly A = P(0); o << (long)D.eval(e, A, S(1)); }
-    else if (v == "diff") { Poly A = P(0); o << sp(D.diff(R, A)); }
-    else if (v == "reverse") { Poly A = P(0); o << sp(D.reverse(R, A)); }
-    else if (v == "reversein") { Poly A = P(0); o << sp(D.reversein(A)); }
-    // ---- add / sub / neg
-    else if (v == "add.rpq") { Poly A = P(0), B = P(1); o << sp(D.add(R, A, B)); }
-    else if (v == "add.alias") { Poly A = P(0), B = P(1); o << sp(D.add(A, A, B)); }
-    else if (v == "addin") { Poly A = P(0), B = P(1); o << sp(D.addin(A, B)); }
-    else if (v == "add.rps") { Poly A = P(0); o << sp(D.add(R, A, S(1))); }
-    else if (v == "add.rsp") { Poly A = P(0); o << sp(D.add(R, S(1), A)); }
-    else if (v == "addin.s") { Poly A = P(0); o << sp(D.addin(A, S(1))); }
-    else if (v == "sub.rpq") { Poly A = P(0), B = P(1); o << sp(D.sub(R, A, B)); }
-    else if (v == "subin") { Poly A = P(0), B = P(1); o << sp(D.subin(A, B)); }
-    else if (v == "sub.rps") { Poly A = P(0); o << sp(D.sub(R, A, S(1))); }
-    else if (v == "sub.rsp") { Poly A = P(1); o << sp(D.sub(R, S(0), A)); }
-    else if (v == "subin.s") { Poly A = P(0); o << sp(D.subin(A, S(1))); }
-    else if (v == "neg") { Poly A = P(0); o << sp(D.neg(R, A)); }
-    else if (v == "negin") { Poly A = P(0); o << sp(D.negin(A)); }
-    // ---- products
-    else if (v == "mul.rpq") { Poly A = P(0), B = P(1); o << sp(D.mul(R, A, B)); }
-    else if (v == "mul.empty") { Poly A = P(0), B = P(1); Poly Z; o << sp(D.mul(Z, A, B)); }
-    else if (v == "mulin") { Poly A = P(0), B = P(1); o << sp(D.mulin(A, B)); }
-    else if (v == "stdmul") { Poly A = P(0), B = P(1); o << sp(D.stdmul(R, A, B)); }
-    else if (v == "karamul") { Poly A = P(0), B = P(1); o << sp(D.karamul(R, A, B)); }
-    else if (v == "mul.rps") { Poly A = P(0); o << sp(D.mul(R, A, S(1))); }
-    else if (v == "mul.rsp") { Poly A = P(0); o << sp(D.mul(R, S(1), A)); }
-    else if (v == "mulin.s") { Poly A = P(0); o << sp(D.mulin(A, S(1))); }
-    else if (v == "sqr") { Poly A = P(0); o << sp(D.sqr(R, A)); }
-    // ---- division
-    else if (v == "div.rps") { Poly A = P(0); o << sp(D.div(R, A, S(1))); }
-    else if (v == "divin.s") { Poly A = P(0); o << sp(D.divin(A, S(1))); }
-    else if (v == "invmodpowx") { Poly A = P(0); o << sp(D.invmodpowx(R, A, Degree(atol(a.at(1).c_str())))); }
-    else if (v == "div.rpq") { Poly A = P(0), B = P(1); o << sp(D.div(R, A, B)); }
-    else if (v == "divin") { Poly A = P(0), B = P(1); o << sp(D.divin(A, B)); }
-    else if (v == "divmod") { Poly A = P(0), B = P(1); D.divmod(R, R2, A, B); o << sp(R) << " " << sp(R2); }
-    else if (v == "divmodin") { Poly A = P(0), B = P(1); D.divmodin(R, A, B); o << sp(R) << " " << sp(A); }
-    else if (v == "mod.rpq") { Poly A = P(0), B = P(1); o << sp(D.mod(R, A, B)); }
-    else if (v == "modin") { Poly A = P(0), B = P(1); o << sp(D.modin(A, B)); }
-    else if (v == "pdivmod") { Poly A = P(0), B = P(1); D.pdivmod(R, R2, m, A, B); o << sp(R) << " " << sp(R2) << " " << (long)m; }
-    else if (v == "pmod") { Poly A = P(0), B = P(1); D.pmod(R, m, A, B); o << sp(R) << " " << (long)m; }
-    // ---- gcd family
-    else if (v == "gcd.2") { Poly A = P(0), B = P(1); o << sp(D.gcd(R, A, B)); }
-    else if (v == "gcd.5") { Poly A = P(0), B = P(1); D.gcd(R, R2, R3, A, B); o << sp(R) << " " << sp(R2) << " " << sp(R3); }
-    else if (v == "invmod") { Poly A = P(0), B = P(1); o << sp(D.invmod(R, A, B)); }
-    else if (v == "invmodunit") { Poly A = P(0), B = P(1); o << sp(D.invmodunit(R, A, B)); }
-    else if (v == "lcm") { Poly A = P(0), B = P(1); o << sp(D.lcm(R, A, B)); }
-    else if (v == "isDivisor") { Poly A = P(0), B = P(1); o << (D.isDivisor(A, B) ? 1 : 0); }
-    // ---- powers
-    else if (v == "pow") { Poly A = P(0); o << sp(D.pow(R, A, (uint64_t)atoll(a.at(1).c_str()))); }
-    else if (v == "powmod") { Poly A = P(0), U = P(2); o << sp(D.powmod(R, A, Integer(a.at(1).c_str()), U)); }
-    else if (v == "powmod.u64") { Poly A = P(0), U = P(2); o << sp(D.powmod(R, A, (uint64_t)atoll(a.at(1).c_str()), U)); }
-    // ---- fused forms
-    else if (v == "axpy") { Poly A = P(0), X = P(1), Y = P(2); o << sp(D.axpy(R, A, X, Y)); }
-    else if (v == "axpy.s") { Poly X = P(1), Y = P(2); o << sp(D.axpy(R, S(0), X, Y)); }
-    else if (v == "axpyin") { Poly Rr = P(0), A = P(1), X = P(2); o << sp(D.axpyin(Rr, A, X)); }
-    else if (v == "axpyin.s") { Poly Rr = P(2), X = P(1); o << sp(D.axpyin(Rr, S(0), X)); }
-    else if (v == "maxpy") { Poly A = P(0), B = P(1), C = P(2); o << sp(D.maxpy(R, A, B, C)); }
-    else if (v == "maxpyin") { Poly Rr = P(0), A = P(1), B = P(2); o << sp(D.maxpyin(Rr, A, B)); }
-    else if (v == "maxpyin.s") { Poly Rr = P(0), B = P(2); o << sp(D.maxpyin(Rr, S(1), B)); }
-    else if (v == "axmy") { Poly A = P(0), X = P(1), Y = P(2); o << sp(D.axmy(R, A, X, Y)); }
-    else if (v == "axmy.s") { Poly X = P(1), Y = P(2); o << sp(D.axmy(R, S(0), X, Y)); }
-    else if (v == "axmyin") { Poly Rr = P(0), A = P(1), X = P(2); o << sp(D.axmyin(Rr, A, X)); }
-    else if (v == "axmyin.s") { Poly Rr = P(0), X = P(2); o << sp(D.axmyin(Rr, S(1), X)); }
-    else o << "UNKNOWN-VARIANT";
-    return o.str();
+template <class Field>
+struct Runner {
+    typedef Poly1Dom<Field, Dense> PolDom;
+    typedef typename PolDom::Element Poly;
+    typedef typename Field::Element Elt;
+    Field F;
+    PolDom D;
+    Integer p;
+    Runner(const Field& f, const Integer& pp) : F(f), D(f, Indeter("X")), p(pp) {}
+
+    Elt elt(const std::string& t) const { Elt e; F.init(e); Integer v(t.c_str()); F.init(e, v); return e; }
+    Poly parse_poly(const std::string& s) const {
+        Poly P;
+        if (s == "-") return P;
+        std::istringstream is(s); std::string t;
+        while (std::getline(is, t, ',')) P.push_back(elt(t));
+        return P;
+    }
+    std::string se(const Elt& e) const {
+        Integer v; F.convert(v, e); v %= p; if (v < 0) v += p;
+        std::ostringstream o; o << v; return o.str();
+    }
+    std::string sp(const Poly& P) const {
+        if (P.empty()) return "-";
+        std::ostringstream o;
+        for (size_t i = 0; i < P.size(); ++i) { if (i) o << ","; o << se(P[i]); }
+        return o.str();
+    }
+    std::string run(const std::string& v, const std::vector<std::string>& a) {
+        std::ostringstream o;
+        // destinations start from a non-empty junk value so that every resize branch is exercised
+        Poly R, R2, R3; R.assign(3, F.one); R2.assign(5, F.one); R3.assign(2, F.one);
+        auto P = [&](size_t i) { return parse_poly(a.at(i)); };
+        auto S = [&](size_t i) { return elt(a.at(i)); };
+        auto N = [&](size_t i) { return atol(a.at(i).c_str()); };
+        Elt e, m; F.init(e); F.init(m);
+        // ---- misc
+        if (v == "setdegree") { Poly A = P(0); o << sp(D.setdegree(A)); }
+        else if (v == "setDegree") { Poly A = P(0); D.setDegree(A); o << sp(A); }
+        else if (v == "degree.d") { Poly A = P(0); Degree d; D.degree(d, A); o << d.value(); }
+        else if (v == "degree.v") { Poly A = P(0); o << D.degree(A).value(); }
+        else if (v == "leadcoef") { Poly A = P(0); o << se(D.leadcoef(e, A)); }
+        else if (v == "isZero") { Poly A = P(0); o << (D.isZero(A) ? 1 : 0); }
+        else if (v == "areEqual") { Poly A = P(0), B = P(1); o << (D.areEqual(A, B) ? 1 : 0); }
+        else if (v == "areNEqual") { Poly A = P(0), B = P(1); o << (D.areNEqual(A, B) ? 0 : 1); }
+        else if (v == "assign") { Poly A = P(0); o << sp(D.assign(R, A)); }
+        else if (v == "monomial") { o << sp(D.assign(R, Degree(N(0)), S(1))); }
+        else if (v == "monomial.init") { o << sp(D.init(R, Degree(N(0)), Integer(a.at(1).c_str()))); }
+        else if (v == "eval") { Poly A = P(0); o << se(D.eval(e, A, S(1))); }
+        else if (v == "diff") { Poly A = P(0); o << sp(D.diff(R, A)); }
+        else if (v == "reverse") { Poly A = P(0); o << sp(D.reverse(R, A)); }
+        else if (v == "reversein") { Poly A = P(0); o << sp(D.reversein(A)); }
+        else if (v == "getEntry") { Poly A = P(0); o << se(D.getEntry(e, Degree(N(1)), A)); }
+        else if (v == "setEntry") { Poly A = P(0); D.setEntry(A, S(1), Degree(N(2))); o << sp(A); }
+        else if (v == "val") { Poly A = P(0); Degree d; D.val(d, A); o << d.value(); }
+        // ---- add / sub / neg
+        else if (v == "add.rpq") { Poly A = P(0), B = P(1); o << sp(D.add(R, A, B)); }
+        else if (v == "add.alias") { Poly A = P(0), B = P(1); o << sp(D.add(A, A, B)); }
+        else if (v == "addin") { Poly A = P(0), B = P(1); o << sp(D.addin(A, B)); }
+        else if (v == "add.rps") { Poly A = P(0); o << sp(D.add(R, A, S(1))); }
+        else if (v == "add.rsp") { Poly A = P(0); o << sp(D.add(R, S(1), A)); }
+        else if (v == "addin.s") { Poly A = P(0); o << sp(D.addin(A, S(1))); }
+        else if (v == "sub.rpq") { Poly A = P(0), B = P(1); o << sp(D.sub(R, A, B)); }
+        else if (v == "subin") { Poly A = P(0), B = P(1); o << sp(D.subin(A, B)); }
+        else if (v == "sub.rps") { Poly A = P(0); o << sp(D.sub(R, A, S(1))); }
+        else if (v == "sub.rsp") { Poly A = P(1); o << sp(D.sub(R, S(0), A)); }
+        else if (v == "subin.s") { Poly A = P(0); o << sp(D.subin(A, S(1))); }
+        else if (v == "neg") { Poly A = P(0); o << sp(D.neg(R, A)); }
+        else if (v == "negin") { Poly A = P(0); o << sp(D.negin(A)); }
+        // the domain's own constant `zero` (the vector [0]) of a fresh domain object as operand; argument 0 is ignored
+        else if (v == "add.rps.Dzero") { PolDom D2(F, Indeter("X")); o << sp(D2.add(R, D2.zero, S(1))); }
+        else if (v == "add.rsp.Dzero") { PolDom D2(F, Indeter("X")); o << sp(D2.add(R, S(1), D2.zero)); }
+        else if (v == "sub.rps.Dzero") { PolDom D2(F, Indeter("X")); o << sp(D2.sub(R, D2.zero, S(1))); }
+        // ---- products
+        else if (v == "mul.rpq") { Poly A = P(0), B = P(1); o << sp(D.mul(R, A, B)); }
+        else if (v == "mul.empty") { Poly A = P(0), B = P(1); Poly Z; o << sp(D.mul(Z, A, B)); }
+        else if (v == "mulin") { Poly A = P(0), B = P(1); o << sp(D.mulin(A, B)); }
+        else if (v == "stdmul") { Poly A = P(0), B = P(1); o << sp(D.stdmul(R, A, B)); }
+        else if (v == "karamul") { Poly A = P(0), B = P(1); o << sp(D.karamul(R, A, B)); }
+        else if (v == "mul.rps") { Poly A = P(0); o << sp(D.mul(R, A, S(1))); }
+        else if (v == "mul.rsp") { Poly A = P(0); o << sp(D.mul(R, S(1), A)); }
+        else if (v == "mulin.s") { Poly A = P(0); o << sp(D.mulin(A, S(1))); }
+        else if (v == "sqr") { Poly A = P(0); o << sp(D.sqr(R, A)); }
+        else if (v == "mul.trunc") { Poly A = P(0), B = P(1); o << sp(D.mul(R, A, B, Degree(N(2)), Degree(N(3)))); }
+        else if (v == "midmul") { Poly A = P(0), B = P(1); o << sp(D.midmul(R, A, B)); }
+        else if (v == "stdmidmul") { Poly A = P(0), B = P(1); o << sp(D.stdmidmul(R, A, B)); }
+        else if (v == "karamidmul") { Poly A = P(0), B = P(1); o << sp(D.karamidmul(R, A, B)); }
+        else if (v == "power_compose") { Poly A = P(0); o << sp(D.power_compose(R, A, (uint64_t)N(1))); }
+        // ---- division
+        else if (v == "div.rps") { Poly A = P(0); o << sp(D.div(R, A, S(1))); }
+        else if (v == "divin.s") { Poly A = P(0); o << sp(D.divin(A, S(1))); }
+        else if (v == "div.rsp") { Poly A = P(1); o << sp(D.div(R, S(0), A)); }
+        else if (v == "mod.rsp") { Poly A = P(1); o << sp(D.mod(R, S(0), A)); }
+        else if (v == "mod.rps") { Poly A = P(0); o << sp(D.mod(R, A, S(1))); }
+        else if (v == "modin.s") { Poly A = P(0); o << sp(D.modin(A, S(1))); }
+        else if (v == "invmodpowx") { Poly A = P(0); o << sp(D.invmodpowx(R, A, Degree(N(1)))); }
+        else if (v == "modpowx") { Poly A = P(0); o << sp(D.modpowx(R, A, Degree(N(1)))); }
+        else if (v == "modpowxin") { Poly A = P(0); o << sp(D.modpowxin(A, Degree(N(1)))); }
+        else if (v == "div.rpq") { Poly A = P(0), B = P(1); o << sp(D.div(R, A, B)); }
+        else if (v == "divin") { Poly A = P(0), B = P(1); o << sp(D.divin(A, B)); }
+        else if (v == "divmod") { Poly A = P(0), B = P(1); D.divmod(R, R2, A, B); o << sp(R) << " " << sp(R2); }
+        else if (v == "divmodin") { Poly A = P(0), B = P(1); D.divmodin(R, A, B); o << sp(R) << " " << sp(A); }
+        else if (v == "mod.rpq") { Poly A = P(0), B = P(1); o << sp(D.mod(R, A, B)); }
+        else if (v == "modin") { Poly A = P(0), B = P(1); o << sp(D.modin(A, B)); }
+        else if (v == "pdivmod") { Poly A = P(0), B = P(1); D.pdivmod(R, R2, m, A, B); o << sp(R) << " " << sp(R2) << " " << se(m); }
+        else if (v == "pmod") { Poly A = P(0), B = P(1); D.pmod(R, m, A, B); o << sp(R) << " " << se(m); }
+        else if (v == "isDivisor") { Poly A = P(0), B = P(1); o << (D.isDivisor(A, B) ? 1 : 0); }
+        // ---- gcd family
+        else if (v == "gcd.2") { Poly A = P(0), B = P(1); o << sp(D.gcd(R, A, B)); }
+        else if (v == "gcd.5") { Poly A = P(0), B = P(1); D.gcd(R, R2, R3, A, B); o << sp(R) << " " << sp(R2) << " " << sp(R3); }
+        else if (v == "invmod") { Poly A = P(0), B = P(1); o << sp(D.invmod(R, A, B)); }
+        else if (v == "invmodunit") { Poly A = P(0), B = P(1); o << sp(D.invmodunit(R, A, B)); }
+        else if (v == "lcm") { Poly A = P(0), B = P(1); o << sp(D.lcm(R, A, B)); }
+        // ---- powers
+        else if (v == "pow") { Poly A = P(0); o << sp(D.pow(R, A, (uint64_t)atoll(a.at(1).c_str()))); }
+        else if (v == "powmod") { Poly A = P(0), U = P(2); o << sp(D.powmod(R, A, Integer(a.at(1).c_str()), U)); }
+        else if (v == "powmod.u64") { Poly A = P(0), U = P(2); o << sp(D.powmod(R, A, (uint64_t)atoll(a.at(1).c_str()), U)); }
+        // ---- fused forms
+        else if (v == "axpy") { Poly A = P(0), X = P(1), Y = P(2); o << sp(D.axpy(R, A, X, Y)); }
+        else if (v == "axpy.s") { Poly X = P(1), Y = P(2); o << sp(D.axpy(R, S(0), X, Y)); }
+        else if (v == "axpyin") { Poly Rr = P(0), A = P(1), X = P(2); o << sp(D.axpyin(Rr, A, X)); }
+        else if (v == "axpyin.s") { Poly Rr = P(2), X = P(1); o << sp(D.axpyin(Rr, S(0), X)); }
+        else if (v == "maxpy") { Poly A = P(0), B = P(1), C = P(2); o << sp(D.maxpy(R, A, B, C)); }
+#ifdef C08_HAVE_MAXPY_S
+        else if (v == "maxpy.s") { Poly B = P(1), C = P(2); o << sp(D.maxpy(R, S(0), B, C)); }
+#endif
+#ifdef C08_HAVE_SHIFT
+        else if (v == "shift") { Poly A = P(0); o << sp(D.shift(R, A, (int)N(1))); }
+#endif
+        else if (v == "shiftin") { Poly A = P(0); o << sp(D.shiftin(A, (int)N(1))); }
+        else if (v == "maxpyin") { Poly Rr = P(0), A = P(1), B = P(2); o << sp(D.maxpyin(Rr, A, B)); }
+        else if (v == "maxpyin.s") { Poly Rr = P(0), B = P(2); o << sp(D.maxpyin(Rr, S(1), B)); }
+        else if (v == "axmy") { Poly A = P(0), X = P(1), Y = P(2); o << sp(D.axmy(R, A, X, Y)); }
+        else if (v == "axmy.s") { Poly X = P(1), Y = P(2); o << sp(D.axmy(R, S(0), X, Y)); }
+        else if (v == "axmyin") { Poly Rr = P(0), A = P(1), X = P(2); o << sp(D.axmyin(Rr, A, X)); }
+        else if (v == "axmyin.s") { Poly Rr = P(0), X = P(2); o << sp(D.axmyin(Rr, S(1), X)); }
+        // ---- interpolation (givinterp.h): points, values
+        else if (v == "interp") {
+            Poly X = P(0), Y = P(1);
+            Interpolation<Field> I(F, Indeter("X"));
+            for (size_t i = 0; i < X.size(); ++i) I(X[i], Y[i]);
+            o << sp(I.interpolator());
+        }
+        // ---- polynomial CRT (givpoly1crt.h): points, polynomial / residues
+        else if (v == "crt.torns") {
+            Poly X = P(0), A = P(1);
+            Poly1CRT<Field> C(F, X, Indeter("X"));
+            typename Poly1CRT<Field>::array_T rns; rns.assign(2, F.one);
+            C.RingToRns(rns, A); o << sp(rns);
+        }
+        else if (v == "crt.toring" || v == "crt.toring.copy") {
+            Poly X = P(0), Y = P(1);
+            Poly1CRT<Field> C(F, X, Indeter("X"));
+            if (v == "crt.toring") { C.RnsToRing(R, Y); }
+            else { C.RnsToRing(R2, Y); Poly1CRT<Field> C2(C); C2.RnsToRing(R, Y); }   // copy carries the cached reciprocals
+            o << sp(R);
+        }
+        else o << "UNKNOWN-VARIANT";
+        return o.str();
+    }
+};
+
+struct AnyRunner { virtual std::string run(const std::string&, const std::vector<std::string>&) = 0; virtual ~AnyRunner() {} };
+template <class Field> struct RunnerBox : AnyRunner {
+    Runner<Field> r;
+    RunnerBox(const Field& f, const Integer& p) : r(f, p) {}
+    std::string run(const std::string& v, const std::vector<std::string>& a) { return r.run(v, a); }
+};
+
+// one binary per field (-DC08_FIELD_<key>) so that the instantiations compile in parallel; no define = all fields
+#if !defined(C08_FIELD_mi32) && !defined(C08_FIELD_mi64) && !defined(C08_FIELD_md) && !defined(C08_FIELD_mI) && !defined(C08_FIELD_mb32) && !defined(C08_FIELD_gfq)
+#define C08_FIELD_mi32
+#define C08_FIELD_mi64
+#define C08_FIELD_md
+#define C08_FIELD_mI
+#define C08_FIELD_mb32
+#define C08_FIELD_gfq
+#endif
+static AnyRunner* make(const std::string& key, const std::string& ps) {
+    Integer p(ps.c_str());
+#ifdef C08_FIELD_mi32
+    if (key == "mi32") return new RunnerBox<Modular<int32_t> >(Modular<int32_t>((int32_t)atol(ps.c_str())), p);
+#endif
+#ifdef C08_FIELD_mi64
+    if (key == "mi64") return new RunnerBox<Modular<int64_t> >(Modular<int64_t>((int64_t)atoll(ps.c_str())), p);
+#endif
+#ifdef C08_FIELD_md
+    if (key == "md") return new RunnerBox<Modular<double> >(Modular<double>((double)atol(ps.c_str())), p);
+#endif
+#ifdef C08_FIELD_mI
+    if (key == "mI") return new RunnerBox<Modular<Integer> >(Modular<Integer>(p), p);
+#endif
+#ifdef C08_FIELD_mb32
+    if (key == "mb32") return new RunnerBox<ModularBalanced<int32_t> >(ModularBalanced<int32_t>((int32_t)atol(ps.c_str())), p);
+#endif
+#ifdef C08_FIELD_gfq
+    if (key == "gfq") return new RunnerBox<GFqDom<int32_t> >(GFqDom<int32_t>((uint32_t)atol(ps.c_str()), 1), p);
+#endif
+    return 0;
 }
 
 int main() {
     std::cout << "#thr " << KARA_THRESHOLD << " " << SQR_THRESHOLD << "\n";
-    std::map<long, std::pair<Field*, PolDom*> > doms;
+    std::map<std::string, AnyRunner*> doms;
     std::string line;
     while (std::getline(std::cin, line)) {
         std::istringstream is(line);
-        std::string v; long p, k, s; is >> v >> p >> k >> s;
+        std::string v, key, ps; long k, s; is >> v >> key >> ps >> k >> s;
         if (!is) continue;
         std::vector<std::string> a; std::string t;
         while (is >> t) a.push_back(t);
-        if (!doms.count(p)) { Field* F = new Field((int32_t)p); doms[p] = std::make_pair(F, new PolDom(*F, Indeter("X"))); }
+        std::string dk = key + ":" + ps;
+        if (!doms.count(dk)) doms[dk] = make(key, ps);
         std::string r;
-        try { r = run(*doms[p].second, *doms[p].first, v, a); } catch (...) { r = "EXCEPTION"; }
-        std::cout << r << "\n";
+        if (!doms[dk]) r = "UNKNOWN-FIELD";
+        else { try { r = doms[dk]->run(v, a); } catch (...) { r = "EXCEPTION"; } }
+        std::cout << r << std::endl;
     }
     return 0;
 }
